@@ -771,3 +771,109 @@ func rdpWorkerName(p *core.Program) string {
 	}
 	return "(" + namedTypeName(t) + ")." + f.Name()
 }
+
+// staleElementPointers: uses of a pointer to a slice element (&s[i], and field/element addresses derived from it)
+// that can execute after an append to that same slice value: the append may move the slice to a new array, and the
+// pointer then addresses the old one - writes through it are lost, reads see what the new array no longer has.
+func staleElementPointers(fn *ssa.Function) (pairs int, bad []ssa.Instruction) {
+	if len(fn.Blocks) == 0 {
+		return 0, nil
+	}
+	for _, b := range fn.Blocks {
+		for _, in := range b.Instrs {
+			ia, ok := in.(*ssa.IndexAddr)
+			if !ok {
+				continue
+			}
+			if _, isSl := ia.X.Type().Underlying().(*types.Slice); !isSl {
+				continue
+			}
+			// appends to the very slice value the pointer was taken from
+			var apps []*ssa.Call
+			for _, rf := range eng.Referrers(ia.X) {
+				if c, isC := rf.(*ssa.Call); isC && eng.BuiltinName(c) == "append" && len(c.Call.Args) > 0 && c.Call.Args[0] == ia.X {
+					apps = append(apps, c)
+				}
+			}
+			if len(apps) == 0 {
+				continue
+			}
+			// memory accesses through the pointer
+			var uses []ssa.Instruction
+			var walk func(p ssa.Value, depth int)
+			walk = func(p ssa.Value, depth int) {
+				if depth > 4 {
+					return
+				}
+				for _, rf := range eng.Referrers(p) {
+					switch u := rf.(type) {
+					case *ssa.Store:
+						if u.Addr == p {
+							uses = append(uses, u)
+						}
+					case *ssa.UnOp:
+						if u.Op == token.MUL {
+							uses = append(uses, u)
+						}
+					case *ssa.FieldAddr:
+						walk(u, depth+1)
+					case *ssa.IndexAddr:
+						if u.X == p {
+							walk(u, depth+1)
+						}
+					}
+				}
+			}
+			walk(ia, 0)
+			for _, c := range apps {
+				pairs++
+				// blocks reachable from the append without re-entering the block that defines the pointer
+				reach := map[*ssa.BasicBlock]bool{}
+				work := append([]*ssa.BasicBlock{}, c.Block().Succs...)
+				for len(work) > 0 {
+					x := work[len(work)-1]
+					work = work[:len(work)-1]
+					if reach[x] || x == ia.Block() {
+						continue
+					}
+					reach[x] = true
+					work = append(work, x.Succs...)
+				}
+				for _, u := range uses {
+					after := false
+					if u.Block() == c.Block() {
+						after = eng.InstrIndex(u) > eng.InstrIndex(c) && (ia.Block() != c.Block() || eng.InstrIndex(ia) < eng.InstrIndex(c))
+					} else if reach[u.Block()] {
+						after = true
+					}
+					if after {
+						bad = append(bad, u)
+					}
+				}
+			}
+		}
+	}
+	return pairs, bad
+}
+
+// staleElementPointerRule: no element pointer outlives an append to its slice, in the packages given.
+func staleElementPointerRule(p *core.Program, r *core.Report, rule string, rels ...string) {
+	r.Rule(rule, "in the packages named no memory access through a pointer to a slice element (&s[i], cur := &stack[len(stack)-1] and the field addresses derived from it) can execute after an append to that same slice value without the pointer having been taken again: the append may reallocate, the pointer then addresses the old array, and an update through it (a cursor advanced, a counter incremented) is lost", 0)
+	total := 0
+	for _, fn := range pkgFuncs(p, rels...) {
+		pairs, bad := staleElementPointers(fn)
+		if pairs == 0 {
+			continue
+		}
+		total += pairs
+		why := ""
+		if len(bad) > 0 {
+			why = fmt.Sprintf("%s accesses memory through an element pointer at %s after an append to the slice it points into: if the append reallocated, the access goes to the abandoned array", short(fn), p.Pos(bad[0].Pos()))
+		}
+		r.Check(len(bad) == 0, rule, short(fn), p.Pos(fn.Pos()), true, fmt.Sprintf("%d element pointer / append pairs, no access after the append", pairs), why)
+	}
+	if total == 0 {
+		r.OK(rule, strings.Join(rels, ",")+"/no-element-pointer-across-append", "", true, "no function takes an element pointer of a slice it also appends to")
+	}
+	r.Count("element_pointer_append_pairs", total)
+}
